@@ -58,17 +58,18 @@ Proof.
 Qed.
 
 (** * A closing math delimiter [\)] / [\]]: the same token whether or not it
-    is the closing delimiter the state expects *)
+    is the closing delimiter the state expects.  (Not so for [$] and [$$]: where
+    they are not the expected closing delimiter they OPEN a formula.) *)
 Section StrayMath.
   Variables (cx : context) (ps : pstate).
   Hypothesis V : std_view cx ps.
 
   Lemma dispatch_close_delim s p pre k r :
-    k <> MDollar ->
+    k <> MDollar -> k <> MDollars ->
     dispatch ps s (m_close k ++ r) p pre 92%N
     = TokOk (mk (m_tok k) (m_close k) p (p + 2) pre []).
   Proof.
-    intros KD. unfold dispatch, stage_math. rewrite (sv_startchars _ _ V), (sv_math _ _ V).
+    intros KD KD2. unfold dispatch, stage_math. rewrite (sv_startchars _ _ V), (sv_math _ _ V).
     change (mem_c 92 [36; 36; 92; 92; 36; 36; 92; 92]%N) with true. cbn [andb].
     assert (TA : forall rest, rest = m_close k ++ r ->
               (fix go (l : list (str * tokkind)) : option token :=
@@ -76,14 +77,14 @@ Section StrayMath.
                  | [] => None
                  | (d, k0) :: r0 => if startswith rest d then Some (mk k0 d p (p + length d) pre []) else go r0
                  end) BL = Some (mk (m_tok k) (m_close k) p (p + 2) pre [])).
-    { intros rest ->. rewrite BL_eq. destruct k; [congruence| |]; cbn [m_close m_tok app startswith N.eqb Pos.eqb andb length];
+    { intros rest ->. rewrite BL_eq. destruct k; [congruence| | |congruence]; cbn [m_close m_tok app startswith N.eqb Pos.eqb andb length];
         destruct r; reflexivity. }
     unfold read_math. rewrite (sv_by_len _ _ V).
     destruct (f_in_math (ps_f ps)) eqn:M; [|rewrite (TA _ eq_refl); reflexivity].
     destruct (c_expect_close (ps_c ps)) as [[cd kk]|] eqn:E; [|rewrite (TA _ eq_refl); reflexivity].
     destruct (std_expect_cases cx ps cd kk V E) as [_ C].
     rewrite (TA _ eq_refl).
-    destruct C as [C|[C|[C|C]]]; injection C as -> ->; (destruct k; [congruence| |]);
+    destruct C as [C|[C|[C|C]]]; injection C as -> ->; (destruct k; [congruence| | |congruence]);
       cbn [m_close m_tok app startswith N.eqb Pos.eqb andb length]; try reflexivity; destruct r; reflexivity.
   Qed.
 End StrayMath.
